@@ -69,6 +69,15 @@ CLAIMED = {
     note="Trusted: Coq kernel + vm_compute; no axioms; hand-written model; harness. Which minimiser is returned without "
          "all_solutions depends on Python set order for non-labelled inputs; any minimiser is accepted there.",
     technique="Coq proof (loop invariant over the enumeration) + model/implementation correspondence", ref="§5 C09"),
+ "C18": dict(
+    text="Coq theorems: C18_subvalue / C18_subgraph (value of the result at ANY assignment of the remaining variables equals the "
+         "source's value at the assignment extended by the substituted values / connections with default 0 and without the constant; "
+         "result has the source's kind) for canonically stored models and plain dicts; C18_normalize, C18_normalize_method (one "
+         "common factor value/max|coef|, kind unchanged) and C18_normalize_max (largest magnitude equals |value|). Tied to /repo by "
+         "exact comparison of outputs and types, plus a truth-table oracle and a direct scaling check on the implementation.",
+    note="Trusted: Coq kernel + vm_compute; no axioms; hand-written model of _subgraph.py/_normalize.py; harness. numpy.prod and the "
+         "float factor 1.0 it introduces are exact on the dyadic coefficients generated; symbolic substituted values are not modelled.",
+    technique="Coq proof (induction over term lists, any-assignment algebraic identity) + model/implementation correspondence", ref="§5 C18"),
 }
 NA_REASON = "check not built yet in this round; see DESIGN.md §8 (order of work)"
 
